@@ -34,7 +34,7 @@ structure FInv (P : Params) (n : Nat) (done : List Blk) (F : FSt) : Prop where
   fbIdx : (F.stream.filter isFB).map (·.index) = (F.closed.map (·.1)).reverse
   fbs : ∀ b ∈ F.stream, isFB b = true → ∃ d, (b.index, d) ∈ F.closed ∧ FBWorked P b d
   /-- the other blocks of the stream are items of `done`, numbered -/
-  datas : ∀ b ∈ F.stream, isFB b = false → ∃ x ∈ done, isFrag x = false ∧ b = { x with seq := b.seq }
+  datas : ∀ b ∈ F.stream, isFB b = false → ∃ x ∈ done, isFrag x = false ∧ b = x.withSeq b.seq
   effIds : ∀ e ∈ F.effs, e.id < n
   effProv : ∀ e ∈ F.effs, (∃ i o, e.e = .fragLoc i o) ∨
               (∃ k m x, e.e = .sparse k m ∧ x ∈ done ∧ isFrag x = true ∧ x.inode = some e.id ∧ x.index = k)
